@@ -114,10 +114,12 @@ def _lib():
         from rl_blox.logging.checkpointer import OrbaxCheckpointer
 
         class Tiny(nnx.Module):
-            """one float32 parameter holding the version number (device D5)"""
+            """one float32 parameter and one non-trainable variable (like the policy heads' action_scale), both holding
+            the version number (device D5): a listed checkpoint must restore the module's FULL state"""
 
             def __init__(self, ver):
                 self.w = nnx.Param(jnp.array([float(ver)], jnp.float32))
+                self.aux = nnx.Variable(jnp.array([float(ver)], jnp.float32))
 
         _CACHE["lib"] = dict(jax=jax, jnp=jnp, np=np, nnx=nnx, ocp=ocp, lg=lg, Orbax=OrbaxCheckpointer, Tiny=Tiny)
     return _CACHE["lib"]
@@ -127,9 +129,12 @@ def _digest(tree):
     """the version number stored in a (saved / restored) state tree"""
     L = _lib()
     leaves = L["jax"].tree_util.tree_leaves(tree)
-    if len(leaves) != 1:
-        raise Mismatch(f"checkpoint state has {len(leaves)} leaves, the module has 1", code="checkpoint:leaf_count")
-    return int(round(float(L["np"].asarray(leaves[0]).reshape(-1)[0])))
+    if len(leaves) != 2:
+        raise Mismatch(f"checkpoint state has {len(leaves)} leaves, the module's state has 2 (a parameter and a non-trainable variable)", code="checkpoint:leaf_count")
+    vals = [float(L["np"].asarray(x).reshape(-1)[0]) for x in leaves]
+    if vals[0] != vals[1]:
+        raise Mismatch(f"checkpoint mixes states of different module versions: leaves {vals}", code="checkpoint:mixed_versions")
+    return int(round(vals[0]))
 
 
 def _module(ver):
@@ -229,6 +234,7 @@ def step(ad: Ad, op, args, exp, pre=None, post=None):
         elif op == "RecordEpoch":
             if ad.real:
                 ad.live.w.value = L["jnp"].array([float(args["ver"])], L["jnp"].float32)
+                ad.live.aux.value = L["jnp"].array([float(args["ver"])], L["jnp"].float32)
                 mod = ad.live
             else:
                 mod = _module(args["ver"])
@@ -236,6 +242,7 @@ def step(ad: Ad, op, args, exp, pre=None, post=None):
             if ad.real:
                 # a checkpoint must hold the module AS IT WAS when record_epoch was called
                 ad.live.w.value = L["jnp"].array([-1.0], L["jnp"].float32)
+                ad.live.aux.value = L["jnp"].array([-1.0], L["jnp"].float32)
         else:  # pragma: no cover
             raise AssertionError(op)
     out = [l for l in buf.getvalue().splitlines() if l.strip()]
